@@ -435,6 +435,18 @@ func TestVerifC13Ed25519Group(t *testing.T) {
 		if q.K == nil {
 			vc = "unrelated-Q"
 		}
-		vc13Check(c, "doubleMult", vc, want, &P, det)
+		if !vc13Check(c, "doubleMult", vc, want, &P, det) {
+			return
+		}
+		// the receiver is the point itself (Q.doubleMult(Q, m, n), the form the
+		// package's own benchmark uses): same result
+		if i%2 == 0 {
+			Q2 := *vc13Point(c, q.P, lq)
+			if pn := lib.Try("ed25519.doubleMult", append(append([]byte{}, mb...), nb...), func() { Q2.doubleMult(&Q2, mb, nb) }); pn == nil {
+				lib.Count("ed25519.dm:receiver-is-Q")
+				det["what"] = "receiver and point operand are the same object"
+				vc13Check(c, "doubleMult", "receiver-is-Q", want, &Q2, det)
+			}
+		}
 	})
 }
